@@ -10,13 +10,28 @@ import GdVerif.Run.Real
 import GdVerif.Run.Cli
 import GdVerif.Run.Quake
 import GdVerif.Run.GenQuake
+import GdVerif.Run.Unreal2
+import GdVerif.Run.GenUnreal2
 /-
   gdmodel: the model behind a line protocol.
     gdmodel run        : reads `<id> <entry> <args…>` lines on stdin, prints `<id> <outcome>`
 -/
 open Gd Gd.Run
 
-def allEntries : List (String × (List String → String)) := readerEntries ++ valveEntries ++ masterEntries ++ settingsEntries ++ viewEntries ++ gameEntries ++ idCheckEntries ++ realEntries ++ cliEntries ++ quakeEntries
+
+def allEntries : List (String × (List String → String)) := List.flatten [
+  readerEntries,
+  valveEntries,
+  masterEntries,
+  settingsEntries,
+  viewEntries,
+  gameEntries,
+  idCheckEntries,
+  realEntries,
+  cliEntries,
+  quakeEntries,
+  unreal2Entries
+  ]
 
 def runLine (line : String) : String :=
   match line.trimAscii.toString.splitOn " " with
@@ -45,6 +60,8 @@ def main (args : List String) : IO UInt32 := do
       let lines := match suite with
         | "valve" => genValve seed n
         | "quake" => genQuake seed n
+        | "unreal2" => genUnreal2 seed n
+        | "u2str" => genUnreal2Strings seed n
         | _ => []
       for l in lines do IO.println l
       return 0
